@@ -142,7 +142,7 @@ CTYPES = {"uint32_t": (4, False), "int32_t": (4, True), "uint16_t": (2, False), 
 
 
 def parse_struct_comment(repo: Repo, ci: ClassInfo, line: str) -> Optional[Tuple[str, str, int, Optional[bool]]]:
-    m = re.match(r"^\s*#\s*(?:\$[0-9a-fA-F]+\s+)?(\w+)\s+(\w+)\s*(?:\[\s*([^\]]+?)\s*\])?\s*;\s*$", line)
+    m = re.match(r"^\s*#\s*(?:\$[0-9a-fA-F]+\s+)?(\w+)\s+(\w+)\s*(?:\[\s*([^\]]+?)\s*\])?\s*;\s*(?:[^;]*)$", line)     # (a remark may follow the `;`)
     if not m:
         return None
     ctype, name, count = m.groups()
@@ -188,6 +188,11 @@ def _comment_at(repo: Repo, ci: ClassInfo, node: ast.AST) -> Optional[Tuple[str,
     i = getattr(node, "_src_lineno", node.lineno) - 2
     while i >= 0 and lines[i].strip() == "":
         i -= 1
+    # one plain local binding may stand between the declaration comment and the write (`data = self.x.bytes` / `f.write(data[:96])`)
+    if i >= 0 and re.match(r"^\s*[A-Za-z_]\w*\s*=\s*[^=].*$", lines[i]) and ".write(" not in lines[i] and not re.search(r"\bw\.\w+\(", lines[i]):
+        i -= 1
+        while i >= 0 and lines[i].strip() == "":
+            i -= 1
     if i >= 0 and lines[i].strip().startswith("#"):
         return parse_struct_comment(repo, ci, lines[i])
     return None
@@ -686,6 +691,8 @@ class LenEval:
                 result = self.of(st.value, ci, env)
                 break
             elif isinstance(st, ast.Expr) and isinstance(st.value, ast.Constant):
+                continue
+            elif isinstance(st, ast.Pass):
                 continue
             else:
                 raise Unknown(f"statement {type(st).__name__} in getter {fn.name}")
